@@ -4,6 +4,7 @@ per component, all schedules; wall-clock time is represented by "no stuck state"
 -/
 import PromqlVerif.LTS.ConcurrentThms
 import PromqlVerif.LTS.WorkerThms
+import PromqlVerif.LTS.ForkJoinThms
 namespace PromqlVerif.C14
 open PromqlVerif LTS.Concurrent
 
@@ -47,5 +48,20 @@ theorem worker_input_buffer_is_needed :
     (LTS.Worker.explored { LTS.Worker.feat with capIn := 0 }).all
       (LTS.Worker.noDeadlock { LTS.Worker.feat with capIn := 0 }) = false :=
   LTS.Worker.deadlock_with_unbuffered_input
+
+/-- **the fork-join of the coalesce operator never gets stuck** (`Next` and `loadSeries`: one
+goroutine per child, failures reported through `errChan`, `wg.Wait()` in the parent): three
+children, each free to succeed or to fail with an error or a panic, every interleaving - a state
+without successor has the parent returned. The channel capacity is the one in the source
+(regenerated: `len(c.operators)` at both sites) -/
+theorem coalesce_fork_join_never_stuck :
+    ∀ s, LTS.Reach (LTS.ForkJoin.sys LTS.ForkJoin.feat) s → LTS.ForkJoin.noDeadlock LTS.ForkJoin.feat s = true :=
+  LTS.ForkJoin.no_deadlock
+
+/-- room for every child's error is what makes this true: with room for one, two failing children
+leave the second sender blocked and the parent in `wg.Wait()` for ever -/
+theorem coalesce_error_channel_capacity_is_needed :
+    (LTS.ForkJoin.explored { cap := 1 }).all (LTS.ForkJoin.noDeadlock { cap := 1 }) = false :=
+  LTS.ForkJoin.deadlock_with_capacity_one
 
 end PromqlVerif.C14
